@@ -860,7 +860,14 @@ class _ClientGen:
         if k == "drop":
             j = r.choice(g)
             self._retire(j)
-            return self._add({"op": "drop", "reg": j})
+            i = self._add({"op": "drop", "reg": j})
+            if r.random() < 0.7:
+                # new objects right after a drop are the ones that re-use its identity
+                for _ in range(r.randint(1, 3)):
+                    i = self.source()
+                    if r.random() < 0.6 and self.live["graph"]:
+                        i = self._add({"op": "canon", "arg": self.live["graph"][-1]}, "graph", canon=True)
+            return i
         if k == "gc":
             return self._add({"op": "gc"})
         if k == "rng":
